@@ -98,17 +98,22 @@ Fixpoint unescape_fuel (fuel : nat) (s : str) : str :=
   | S f =>
     match s with
     | [] => []
-    | 92 :: c :: t => if is_ascii_punct c then c :: unescape_fuel f t else 92 :: unescape_fuel f (c :: t)
-    | 38 :: t =>
-      match match_entity_re true t with
-      | Some (m, rest) =>
-        match replace_entity_pattern m with
-        | Some r => r ++ unescape_fuel f rest
-        | None => m ++ unescape_fuel f rest
+    | c :: t =>
+      if c =? 92 then
+        match t with
+        | d :: t' => if is_ascii_punct d then d :: unescape_fuel f t' else 92 :: unescape_fuel f t
+        | [] => 92 :: unescape_fuel f t
         end
-      | None => 38 :: unescape_fuel f t
-      end
-    | c :: t => c :: unescape_fuel f t
+      else if c =? 38 then
+        match match_entity_re true t with
+        | Some (m, rest) =>
+          match replace_entity_pattern m with
+          | Some r => r ++ unescape_fuel f rest
+          | None => m ++ unescape_fuel f rest
+          end
+        | None => 38 :: unescape_fuel f t
+        end
+      else c :: unescape_fuel f t
     end
   end.
 Definition unescape_all (s : str) : str := unescape_fuel (S (length s)) s.
